@@ -97,7 +97,6 @@ T_MAX = 5869584000
 class GmtOffset(Base):
     """C19/offset: under the zone assumption localtime(t) = gmtime(t + 900 z), gmtoffset_from_tm(t, localtime(t)) = z."""
     target = 'pycdlib.utils.gmtoffset_from_tm'
-    replayable = True
 
     def setup(self, c):
         a = c.a
@@ -117,6 +116,12 @@ class GmtOffset(Base):
 
     def replay_env(self, values):
         return {'TZ': tz_string(values.get('z', 0))}
+
+    replayable = False  # abstract calendar: see contracts.dates.ZoneMixin
+
+    def seeds(self):
+        from contracts.dates import ZoneMixin
+        return ZoneMixin.seeds(self)
 
     def post(self, c, a, out):
         return {'offset-is-zone-offset': out.result == a.z}
